@@ -141,19 +141,23 @@ def check(run):
             recs = conv_by.get(id(n), [])
             name = c.text
             if name == "int" and recs:
+                from .. import strlang
+                from .C02 import refined_language
                 okk = True
                 for r in recs:
                     a0 = r[3][0] if r[3] else None
-                    base = r[3][1].value if len(r[3]) > 1 and isinstance(r[3][1], ConstV) else (r[4]["base"].value if isinstance(r[4].get("base"), ConstV) else 10)
-                    d = lang_of(a0, r[7]) if a0 is not None else None
-                    allowed = rb"[0-9]+" if base == 10 else rb"[0-9A-Fa-f]+"
-                    if d is None or not rx.included(d, rx.dfa_of(allowed)):
+                    bv = r[3][1] if len(r[3]) > 1 else r[4].get("base")
+                    base = 10 if bv is None else (bv.value if isinstance(bv, ConstV) and isinstance(bv.value, int) else None)
+                    d = refined_language(a0.term, r[5], r[7]) if isinstance(a0, (BytesV, StrV)) and base is not None else None
+                    if d is None or not rx.included(d, strlang.int_grammar(base)):
                         okk = False
                 if okk:
-                    return "argument language (regex group) is a non-empty digit string"
+                    return "the regular language of the argument (group language through split/strip/slice, refined by dominating tests) is inside int()'s grammar for the base"
             if name in ("binascii.unhexlify", "binascii.a2b_hex") and recs:
-                if all((lang_of(r[3][0], r[7]) is not None and rx.included(lang_of(r[3][0], r[7]), rx.dfa_of(rb"(?:[0-9A-Fa-f]{2})*"))) for r in recs):
-                    return "argument language (regex group) is a sequence of hex pairs"
+                from .C02 import refined_language
+                if all(isinstance(r[3][0], (BytesV, StrV)) and (lambda d: d is not None and rx.included(d, rx.dfa_of(rb"(?:[0-9A-Fa-f]{2})*")))(refined_language(r[3][0].term, r[5], r[7]))
+                       for r in recs):
+                    return "the regular language of the argument is a sequence of hex pairs"
             if name == "chr" and recs and all(isinstance(r[3][0], IntV) and r[5].le(0, r[3][0].lin) and r[5].le(r[3][0].lin, 0x10FFFF) for r in recs if r[3]):
                 return "the argument is an integer in [0, 0x10FFFF] on every path"
             if name == "chr" and e == "OverflowError" and recs:
@@ -455,7 +459,7 @@ def build_reviewed(run, prog):
             bad = [o["key"] for o in sub.obligations if not o["ok"] and o["rule"] in rules]
             return not bad, f"C14 rules {sorted(rules)} hold ({len([o for o in sub.obligations if o['rule'] in rules])} obligations re-checked)" + (f"; failing {bad}" if bad else "")
         return cond
-    for kind, frag in (("ext", "int(x[1:], base=16)"), ("ext", "int(x)"), ("ext", "bytes((int(x[1:]")):
+    for kind, frag in (("ext", "bytes("),):
         out[("decoders.xml.unescape_xml", kind, frag)] = ("the tokens are exactly the references of XML_ESCAPE_RE: decimal 0-255 or x + two hex digits",
                                                         c14_lemma({"R1-xml", "R2-xml-tokens"}))
     out[("decoders.codec.find_utf16", "method", ".decode('utf-16')")] = ("every match is a sequence of (byte, NUL) pairs: valid UTF-16LE without surrogates or BOM",
@@ -469,8 +473,8 @@ def build_reviewed(run, prog):
             obs = [o for o in sub.obligations if key_sub in o["key"]]
             return bool(obs) and all(o["ok"] for o in obs), f"C10 obligation '{key_sub}' holds (validator dominance re-checked)"
         return cond
-    out[("decoders.network.find_urls", "call", "parse_url(url)")] = ("is_url accepted the very text that parse_url splits, so urlsplit cannot raise", c10_dom("find_urls/network.url-node"))
-    out[("decoders.network.find_ips", "call", "parse_ip(match.group())")] = ("is_ip accepted the text, so inet_aton / IPv4Address accept it", c10_dom("is_ip-dominates-parse_ip"))
+    out[("decoders.network.find_urls", "call", "parse_url(")] = ("is_url accepted the very text that parse_url splits, so urlsplit cannot raise", c10_dom("find_urls/network.url-node"))
+    out[("decoders.network.find_ips", "call", "parse_ip(")] = ("is_ip accepted the text, so inet_aton / IPv4Address accept it", c10_dom("is_ip-dominates-parse_ip"))
 
     def c20_encoder():
         from . import C20
